@@ -42,6 +42,7 @@ func (s *Store) snapshotRevert(revertTo Snapshot) error {
 	footerPrev := s.footer
 	s.footer = footer // Owns the footer ref-count.
 	s.totPersists++
+	verifTrace("store.revert.swap", s)
 
 	if footerPrev != nil {
 		footerPrev.DecRef()
